@@ -3,7 +3,7 @@
 DEPENDS[X] = [(Y, [section labels of contracts/Y.py])]: the check of X generates and discharges those sections of Y as well, so a change inside
 a callee that breaks the contract X was proved against fails a named obligation `Y.<...>` in the check of X (with Y's replay).  Only sections
 that verify function bodies X actually calls are listed; Y's bounded runner is not run for X."""
-LISTS = ['as_list', 'lens', 'zipper']
+LISTS = ['as_list', 'is_iterable', 'len0', 'lens', 'zipper']
 CMP = ['axiom validation', 'as_primitive', 'cmp', 'has_nan', 'sort']
 # C07's as_primitive section (cmp's normalisation step) takes the loop(list, tuple) decorator from C19's loops._wrapped contract and dt(datetime) from C04
 AP_CALLEES = [('C19', ['_wrapped']), ('C04', ['dt'])]
